@@ -81,8 +81,15 @@ def neq_check(ctx, mon, A, y, w, lamb, x, x_old, what):
             return float(np.sum((r * r) if w is None else (w * r * r))
                 + lamb * np.sum(v * v))
         jn, jo = J(x), J(x_old)
+        # rounding of the evaluation of J itself: the residual A v - y is a
+        # difference of terms of size |A||v| + |y| (matters when J is tiny
+        # against them, i.e. for almost interpolated data)
+        sc = (np.abs(A) @ np.abs(x) + np.abs(y)) ** 2
+        sc0 = (np.abs(A) @ np.abs(x_old) + np.abs(y)) ** 2
+        jtol = 1e3 * EPS * float(np.sum((sc + sc0) if w is None
+            else w * (sc + sc0)))
         ctx.check(mon.replace('optimal', 'local-descent'),
-            jn <= jo * (1 + 1e-10) + 1e-300, f'{what}: local objective '
+            jn <= jo * (1 + 1e-10) + jtol + 1e-300, f'{what}: local objective '
             f'increased {jo:.6e} -> {jn:.6e}')
     return ok
 
